@@ -55,6 +55,26 @@ func vc08sUpstream() dnsserver.Handler {
 }
 
 func vc08sStart(tb testing.TB, maxUDP uint16) (srv *dnsserver.ServerDNS) {
+	h := vc08sHandler(tb)
+	var err error
+	for i := 0; i < 30; i++ {
+		srv = dnsserver.NewServerDNS(dnsserver.ConfigDNS{
+			ConfigBase:     dnsserver.ConfigBase{Name: "verif-c08-stack", Addr: "127.0.0.1:0", Handler: h},
+			MaxUDPRespSize: maxUDP,
+		})
+		if err = srv.Start(context.Background()); err == nil {
+			return srv
+		}
+	}
+
+	fmt.Println("VERIF-INCONCLUSIVE: cannot start loopback server:", err)
+	tb.FailNow()
+
+	return nil
+}
+
+// vc08sHandler is the chain ratelimitmw -> ecscache -> large-answer upstream.
+func vc08sHandler(tb testing.TB) (h dnsserver.Handler) {
 	geo := agdtest.NewGeoIP()
 	geo.OnData = func(string, netip.Addr) (*geoip.Location, error) { return nil, nil }
 	geo.OnSubnetByLocation = func(_ *geoip.Location, fam netutil.AddrFamily) (netip.Prefix, error) {
@@ -91,22 +111,7 @@ func vc08sStart(tb testing.TB, maxUDP uint16) (srv *dnsserver.ServerDNS) {
 		EDEEnabled: true,
 	})
 
-	h := rlMw.Wrap(cacheMw.Wrap(vc08sUpstream()))
-	var err error
-	for i := 0; i < 30; i++ {
-		srv = dnsserver.NewServerDNS(dnsserver.ConfigDNS{
-			ConfigBase:     dnsserver.ConfigBase{Name: "verif-c08-stack", Addr: "127.0.0.1:0", Handler: h},
-			MaxUDPRespSize: maxUDP,
-		})
-		if err = srv.Start(context.Background()); err == nil {
-			return srv
-		}
-	}
-
-	fmt.Println("VERIF-INCONCLUSIVE: cannot start loopback server:", err)
-	tb.FailNow()
-
-	return nil
+	return rlMw.Wrap(cacheMw.Wrap(vc08sUpstream()))
 }
 
 func TestVerifC08Stack(t *testing.T) {
